@@ -437,6 +437,18 @@ fn run_replay(args: &Args) -> i32 {
     }
 }
 
+/// The running image, even if the file it was started from has been replaced meanwhile (a
+/// concurrent rebuild): /proc/self/exe executes the mapped image, `current_exe()` would name a
+/// deleted path.
+pub fn self_exe() -> PathBuf {
+    let p = PathBuf::from("/proc/self/exe");
+    if p.exists() {
+        p
+    } else {
+        std::env::current_exe().expect("current_exe")
+    }
+}
+
 fn main() {
     let args = parse_args();
     silent_panics();
@@ -708,7 +720,7 @@ fn c06_explore(args: &Args, depth: usize) -> (C06Acc, bool, Option<String>) {
                     capped.store(true, Ordering::Relaxed);
                     break;
                 }
-                let exe = std::env::current_exe().unwrap();
+                let exe = crate::self_exe();
                 let out = std::process::Command::new(exe)
                     .args(["c06worker", "C06", "--tier", tier_name(args.tier), "--depth", &depth.to_string(), "--from", &(c * chunk).to_string(), "--to", &((c + 1) * chunk).to_string()])
                     .output();
@@ -1000,7 +1012,7 @@ fn first_difference(args: &Args, bins: &[(String, bool)], widx: usize) -> Option
             Err(_) => vec![],
         }
     };
-    let me = std::env::current_exe().unwrap().to_string_lossy().to_string();
+    let me = crate::self_exe().to_string_lossy().to_string();
     let a = dump(&me, false);
     for (bin, sub) in bins {
         let b = dump(bin, *sub);
@@ -1159,7 +1171,7 @@ fn replay_c20(args: &Args, v: &Value) -> i32 {
     let script: Vec<u16> = v["script"].as_array().map(|a| a.iter().map(|x| x.as_u64().unwrap_or(0) as u16).collect()).unwrap_or_default();
     let tier = v["tier"].as_str().unwrap_or("quick");
     let sc = if script.is_empty() { "-".to_string() } else { script.iter().map(|x| x.to_string()).collect::<Vec<_>>().join(",") };
-    let me = std::env::current_exe().unwrap().to_string_lossy().to_string();
+    let me = crate::self_exe().to_string_lossy().to_string();
     let run = |bin: &str, sub: bool| -> String {
         let o = std::process::Command::new(bin)
             .args(["onedigest", "C20", "--tier", tier, "--from", &widx.to_string(), "--script", &sc])
